@@ -1,8 +1,7 @@
 """C13 support: hidden regular models, their instance documents (XML and JSON), an own
 XML writer / reader (lxml) for the generic element trees the Lean model consumes, and the
-infoset / JSON comparisons of the end-to-end oracle.  Nothing here imports xsdata except
-`canonical_value`, which asks xsdata's own converter how it spells a value (the most
-favourable reading of "values are spelled canonically")."""
+infoset / JSON comparisons of the end-to-end oracle.  Nothing here imports xsdata: the canonical
+spellings of `canonical_value` are written out here."""
 from __future__ import annotations
 
 import json
@@ -33,10 +32,8 @@ def canonical_value(rng: random.Random, kind: str, style: int = 0) -> str:
     if kind == "bool":
         return rng.choice(["true", "false"])
     if kind == "float":
-        from xsdata.formats.converter import converter
-
         v = rng.choice([1.5, -0.25, 3.0, 1e22, 2.5e-07, 0.1, -12.75, rng.uniform(-1000, 1000), float(rng.randint(-50, 50))])
-        return converter.serialize(v)
+        return repr(v).upper().replace("E+", "E")  # the XSD spelling of a finite double, written here (not asked of xsdata)
     if kind == "decimal":
         if style == 0:  # more digits than a double holds: never a strict float
             return f"{rng.randint(10**20, 10**21)}.{rng.randint(1, 9)}"
@@ -98,12 +95,15 @@ def gen_decl(rng, names: Names, depth: int, parent_ns, opts) -> dict:
     if shape < 0.58:  # simple content with attributes
         if not attrs:
             attrs.append({"name": names.fresh("a"), "ns": None, "kind": "string", "style": 0, "required": True})
-        return {"name": name, "ns": ns, "shape": "simple", "kind": rng.choice(KINDS), "style": style, "attrs": attrs}
+        return {"name": name, "ns": ns, "shape": "simple", "kind": rng.choice(KINDS), "style": style, "attrs": attrs,
+                "nillable": rng.random() < opts.get("nil_complex", 0.0)}
     if shape < 0.66 and opts.get("mixed", True):
         inl = [gen_decl(rng, names, 99, ns, opts) for _ in range(rng.randint(1, 2))]
         for d in inl:
             d["kind"], d["style"], d["nillable"], d["empty"] = "string", 0, False, rng.random() < opts.get("inline_empty", 0.3)
-        return {"name": name, "ns": ns, "shape": "mixed", "attrs": attrs, "inline": inl}
+        # lead_only: every occurrence has its text in front of the first child and nowhere else (no tails): the only
+        # thing that makes the class mixed is then ElementMapper.build_text
+        return {"name": name, "ns": ns, "shape": "mixed", "attrs": attrs, "inline": inl, "lead_only": rng.random() < opts.get("lead_only", 0.3)}
     parts = []
     if rng.random() < opts.get("runs", 0.2):
         # known prefix and suffix, in between optional runs of 2-3 children that come all or not at all:
@@ -125,7 +125,9 @@ def gen_decl(rng, names: Names, depth: int, parent_ns, opts) -> dict:
             mn = 0 if rng.random() < 0.3 else 1
             mx = rng.choice([1, 1, 1, 3])
             parts.append({"t": "el", "decl": d, "min": mn, "max": mx})
-    return {"name": name, "ns": ns, "shape": "complex", "attrs": attrs, "parts": parts}
+    # an element with attributes / children that may also be xsi:nil (it keeps its attributes then)
+    return {"name": name, "ns": ns, "shape": "complex", "attrs": attrs, "parts": parts,
+            "nillable": depth > 0 and rng.random() < opts.get("nil_complex", 0.0)}
 
 
 def gen_xml_model(rng, **opts) -> dict:
@@ -149,6 +151,9 @@ def instance(rng, d: dict, rep_min: int = 1) -> dict:
     for a in d.get("attrs", []):
         if a["required"] or rng.random() < 0.5:
             el["a"].append([qn(a["ns"], a["name"]), canonical_value(rng, a["kind"], a["style"])])
+    if d["shape"] in ("simple", "complex") and d.get("nillable") and rng.random() < 0.35:
+        el["a"].append([qn(XSI, "nil"), "true"])
+        return el
     if d["shape"] == "leaf":
         if d["nillable"] and rng.random() < 0.4:
             el["a"].append([qn(XSI, "nil"), "true"])
@@ -160,6 +165,10 @@ def instance(rng, d: dict, rep_min: int = 1) -> dict:
         el["t"] = canonical_value(rng, d["kind"], d["style"])
     elif d["shape"] == "mixed":
         words = ["some ", "text, ", "more", " and ", "end."]
+        if d.get("lead_only"):
+            el["t"] = rng.choice(words)
+            el["c"].extend(instance(rng, d["inline"][rng.randrange(len(d["inline"]))], rep_min) for _ in range(rng.randint(1, 3)))
+            return el
         bare = rng.random() < 0.3  # an occurrence of the mixed element that happens to hold elements only
         el["t"] = None if bare or rng.random() < 0.3 else rng.choice(words)  # sometimes only tails carry text
         picks = [rng.randrange(len(d["inline"])) for _ in range(rng.randint(1, 3))]
@@ -315,8 +324,69 @@ def infoset_diff(a, b, path=""):
     return None
 
 
+def align_children(ka, kb):
+    """pair the k-th child named n of one list with the k-th child named n of the other:
+    (pairs of indices, unmatched indices of a, unmatched indices of b)"""
+    seen, where = {}, {}
+    for j, n in enumerate(kb):
+        where.setdefault(n, []).append(j)
+    pairs, missing, used = [], [], set()
+    for i, n in enumerate(ka):
+        k = seen.get(n, 0)
+        seen[n] = k + 1
+        js = where.get(n, [])
+        if k < len(js):
+            pairs.append((i, js[k]))
+            used.add(js[k])
+        else:
+            missing.append(i)
+    return pairs, missing, [j for j in range(len(kb)) if j not in used]
+
+
+def infoset_diffs(a, b, path=()):
+    """EVERY difference between two infosets (infoset_diff stops at the first one), as records
+    {"kind": element|attributes|text|children|tail, "path": names from the root down to the element,
+     "before", "after", "node": the element as the sample has it}; a `children` record also carries the
+     elements only one side has (`missing`, `extra`, children are paired by name and rank) and the
+     comparison goes on below the paired children"""
+    if a[0] != b[0]:
+        return [{"kind": "element", "path": tuple(path), "before": a[0], "after": b[0], "node": a}]
+    p = tuple(path) + (a[0],)
+    out = []
+    if a[1] != b[1]:
+        out.append({"kind": "attributes", "path": p, "before": a[1], "after": b[1], "node": a})
+    if a[2] != b[2]:
+        out.append({"kind": "text", "path": p, "before": a[2], "after": b[2], "node": a})
+    ka, kb = [c[0][0] for c in a[3]], [c[0][0] for c in b[3]]
+    if ka != kb:
+        pairs, missing, extra = align_children(ka, kb)
+        out.append({"kind": "children", "path": p, "before": ka, "after": kb, "node": a,
+                    "missing": [a[3][i][0] for i in missing], "extra": [b[3][j][0] for j in extra],
+                    "kept": [kb[j] for j in range(len(kb)) if j not in extra]})
+    else:
+        pairs = [(i, i) for i in range(len(ka))]
+    for i, j in pairs:
+        (ca, ta), (cb, tb) = a[3][i], b[3][j]
+        out.extend(infoset_diffs(ca, cb, p))
+        if ta != tb:
+            out.append({"kind": "tail", "path": p, "after_child": ca[0], "before": ta, "after": tb, "node": a})
+    return out
+
+
+def diff_text(d):
+    """the wording of infoset_diff for one record of infoset_diffs"""
+    p = "/".join(("",) + tuple(d["path"]))
+    if d["kind"] == "element":
+        return f"{p}: element {d['before']} became {d['after']}"
+    if d["kind"] == "tail":
+        return f"{p}: text after {d['after_child']} {d['before']!r} became {d['after']!r}"
+    if d["kind"] == "text":
+        return f"{p}: text {d['before']!r} became {d['after']!r}"
+    return f"{p}: {d['kind']} {d['before']} became {d['after']}"
+
+
 # --------------------------------------------------------------------------- hidden JSON model
-JKINDS = ["int", "float", "bool", "str", "obj", "arr_int", "arr_str", "arr_float", "arr_obj"]
+JKINDS =["int", "float", "bool", "str", "obj", "arr_int", "arr_str", "arr_float", "arr_obj"]
 
 
 def gen_json_model(rng, names=None, depth=0, **opts) -> dict:
@@ -403,6 +473,42 @@ def json_diff(a, b, path="$"):
                 return d
         return None
     return None if a == b else f"{path}: {json.dumps(a)[:80]} became {json.dumps(b)[:80]}"
+
+
+def json_diffs(a, b, path=()):
+    """EVERY difference between two normalised JSON values (json_diff stops at the first one):
+    {"kind": changed|appeared|disappeared|length, "path": keys and indices from the root, "before", "after"}"""
+    if type(a) is not type(b) and not (isinstance(a, list) and isinstance(b, list)):
+        return [{"kind": "changed", "path": tuple(path), "before": a, "after": b}]
+    if isinstance(a, dict):
+        out = []
+        for k in sorted(set(a) | set(b)):
+            if k not in a:
+                out.append({"kind": "appeared", "path": tuple(path) + (k,), "before": None, "after": b[k]})
+            elif k not in b:
+                out.append({"kind": "disappeared", "path": tuple(path) + (k,), "before": a[k], "after": None})
+            else:
+                out.extend(json_diffs(a[k], b[k], tuple(path) + (k,)))
+        return out
+    if isinstance(a, list) and a[:1] != ["num"] and b[:1] != ["num"]:
+        if len(a) != len(b):
+            return [{"kind": "length", "path": tuple(path), "before": a, "after": b}]
+        out = []
+        for i, (x, y) in enumerate(zip(a, b)):
+            out.extend(json_diffs(x, y, tuple(path) + (i,)))
+        return out
+    return [] if a == b else [{"kind": "changed", "path": tuple(path), "before": a, "after": b}]
+
+
+def json_diff_text(d):
+    p = "$" + "".join(f"[{k}]" if isinstance(k, int) else f".{k}" for k in d["path"])
+    if d["kind"] == "appeared":
+        return f"{p}: appeared with {json.dumps(d['after'])[:80]}"
+    if d["kind"] == "disappeared":
+        return f"{p}: {json.dumps(d['before'])[:80]} disappeared"
+    if d["kind"] == "length":
+        return f"{p}: {len(d['before'])} items became {len(d['after'])}"
+    return f"{p}: {json.dumps(d['before'])[:80]} became {json.dumps(d['after'])[:80]}"
 
 
 # --------------------------------------------------------------------------- encodings for the Lean driver
